@@ -116,10 +116,14 @@ def run(ctx: Ctx) -> None:
         if rnd.random() < .5:
             # a multi-line expression and a comment, to get spans over several lines
             src += '\ndef extra_%d(a: int, b: int) -> int:\n\t# note\n\treturn (a +\n\t\tb * 2)\n' % i
+        if rnd.random() < .5:
+            # line-break look-alikes that are not line breaks for the parser: a form-feed page break and U+2028 inside a string
+            src += '\n\x0c\ndef extra2_%d() -> str:\n\treturn \'a\u2028b\'\n\ndef extra3_%d(a: int) -> int:\n\treturn a + 1\n' % (i, i)
         name = 'c16mods.m%d' % i
         path = name.replace('.', '/') + '.py'
         with open(path, 'w') as f:
             f.write(src)
+        cold_spans = {}
         for phase in ('cold', 'cached'):
             sess = tsession.Session({})
             try:
@@ -130,6 +134,12 @@ def run(ctx: Ctx) -> None:
             bad = None
             for n in [*ep.procedural(), ep]:
                 sm = n.source_map
+                if phase == 'cold':
+                    cold_spans[n.full_path] = span_tuple(sm)
+                elif cold_spans.get(n.full_path) != span_tuple(sm):
+                    bad = ('span-differs-after-restore:' + type(n).__name__, 'the span of a node restored from the cache differs from the span of the freshly parsed node',
+                           dict(node=n.full_path, span=span_tuple(sm), cold_span=cold_spans.get(n.full_path)))
+                    break
                 if sm['begin'] == (0, 0) and sm['end'] == (0, 0):
                     continue
                 checked += 1
